@@ -62,6 +62,9 @@ class Session:
         if k == 'fopen':
             self.fopens.append(kv.get('path'))
             return None
+        if k == 'tcp_connect_blocked':
+            self.connect_blocked = getattr(self, 'connect_blocked', 0) + 1
+            return None
         if k == 'http_fault_fired':
             self.http_faults_fired = getattr(self, 'http_faults_fired', 0) + 1
             return None
